@@ -80,6 +80,10 @@ func main() {
 			return
 		}
 		f(env)
+		if *tier == "thorough" && *replay == "" {
+			selfTest(*prop, run)
+			buildTagSweep(prog, run)
+		}
 		code = run.Finish()
 	}()
 	os.Exit(code)
